@@ -296,6 +296,11 @@ func (env *ExecEnv) expandParam(fields []*field, pe *ast.ParamExp, mode ExpMode)
 			goto Param
 		case !set && env.Opts&NoUnset != 0 && !env.isSpParam(pe.Name.Value):
 			goto Unset
+		case quote && pe.Name.Value == "@" && len(env.Args) == 1:
+			// "$@" generates zero fields
+			if f := fields[len(fields)-1]; len(f.b) == 1 && f.b[0] == "" && f.quote[0] {
+				f.b, f.quote = nil, nil
+			}
 		}
 	case pe.Word == nil:
 		// string length
